@@ -1164,7 +1164,7 @@ var c16SemElems = []c16SemElem{
 
 var c16SemCaps = []int{0, 1, 3}
 
-var c16SemScen = []string{"assign-stmt", "recv-expr", "ok-form", "forin", "blocked-recv-woken-by-close", "errors-try", "errors-top-send", "errors-top-close", "go-snapshot"}
+var c16SemScen = []string{"assign-stmt", "recv-expr", "ok-form", "forin", "blocked-recv-woken-by-close", "errors-try", "errors-top-send", "errors-top-close", "go-snapshot", "go-shared-entry", "go-generator"}
 
 func c16SemCount() int { return len(c16SemScen) * len(c16SemElems) * len(c16SemCaps) }
 
@@ -1299,6 +1299,44 @@ func c16Semantic(idx int) *c16Prog {
 		g.p.expArgs[`"anon"`] = `"anon" int64(4) "four"`
 		g.p.argForm[`"f2"`], g.p.argForm[`"f5"`], g.p.argForm[`"fv"`], g.p.argForm[`"anon"`] = "named2+spread", "named5", "variadic", "anon2"
 		g.p.markPair = append(g.p.markPair, [2]string{"arg:int64(5)", "after:int64(5)"})
+	case "go-shared-entry":
+		// ONE function value (variadic / six parameters / two parameters) entered by
+		// many goroutines at about the same time: each goroutine sees its own arguments
+		m.WriteString("d = make(chan interface, 64)\n" +
+			"func wv(k, n, rest...) { args(k, n, rest); d <- k }\n" +
+			"func w6(k, n, a, b, x, y) { args(k, n, a, b, x, y); d <- k }\n" +
+			"func w2(k, n) { args(k, n); d <- k }\n" +
+			"for r = 0; r < 30; r++ {\n" +
+			"  for j = 0; j < 8; j++ { go wv(r * 100 + j, j, r, \"v\") }\n" +
+			"  for j = 8; j < 16; j++ { go w6(r * 100 + j, j, r, \"s\", j + 1, r + 1) }\n" +
+			"  for j = 16; j < 20; j++ { go w2(r * 100 + j, j) }\n" +
+			"  for j = 0; j < 20; j++ { <-d }\n}\n")
+		for r := 0; r < 30; r++ {
+			for j := 0; j < 20; j++ {
+				k := fmt.Sprintf("int64(%d)", r*100+j)
+				switch {
+				case j < 8:
+					g.p.expArgs[k] = fmt.Sprintf("%s int64(%d) []interface {}[int64(%d) \"v\"]", k, j, r)
+					g.p.argForm[k] = "shared-variadic"
+				case j < 16:
+					g.p.expArgs[k] = fmt.Sprintf("%s int64(%d) int64(%d) \"s\" int64(%d) int64(%d)", k, j, r, j+1, r+1)
+					g.p.argForm[k] = "shared-six-params"
+				default:
+					g.p.expArgs[k] = fmt.Sprintf("%s int64(%d)", k, j)
+					g.p.argForm[k] = "shared-two-params"
+				}
+			}
+		}
+	case "go-generator":
+		// a function starts a goroutine and returns (its channel) before the goroutine
+		// has run; the caller then only blocks in a top-level range
+		fmt.Fprintf(m, "func gen(q) {\n  out = make(chan %s%s)\n  go func() { for j = 0; j < q; j++ { out <- %s }\n close(out) }()\n  return out\n}\n", el.decl, map[bool]string{true: "", false: ", " + strconv.Itoa(cp)}[cp == 0], c16Item(se.fam, "7", "j"))
+		m.WriteString("for x in gen(3) { report(\"g1\", x) }\nreport(\"g1-end\", 1)\n" +
+			"func gen2(q) { o2 = gen(q)\n return o2 }\ngg = gen2(2)\nfor x in gg { report(\"g2\", x) }\nreport(\"g2-end\", 1)\n")
+		g.expect("g1", "generator:wrong-items", val(0), val(1), val(2))
+		g.expect("g1-end", "closed-forin:no-end", "int64(1)")
+		g.expect("g2", "generator:wrong-items", val(0), val(1))
+		g.expect("g2-end", "closed-forin:no-end", "int64(1)")
 	}
 	return g.finish()
 }
